@@ -33,8 +33,8 @@ MANIFEST = {
                   'count per call.  Exploration: held on the inputs observed.',
     'level_note': 'Trusts CPython and sys.monitoring; termination is bounded progress (line budget), inputs up to 20k characters.',
 }
-PLAN = {'quick': {'shards': 2, 'timeout': 400, 'budget': 60},
-        'thorough': {'shards': 16, 'timeout': 1800, 'budget': 480}}
+PLAN = {'quick': {'shards': 2, 'timeout': 1800, 'budget': 900},
+        'thorough': {'shards': 16, 'timeout': 7200, 'budget': 2400}}
 N_CASES = {'quick': 9000, 'thorough': 90000}
 
 MONTHS = ['Jan', 'January', 'feb', 'MAR', 'Sept', 'sep', 'December', 'may', 'Jun', 'jul', 'Aug', 'oct', 'Nov']
